@@ -197,14 +197,14 @@ is followed by no non-`gc` step that reads `a` or a value of `al a.id`, where
 WHOLE PROGRAM that read the value. -/
 theorem gcBack_direct (prog : List Step) (al : Nat → List Nat) (rl : Live)
     (hnogc : ∀ s ∈ prog, s.op ≠ .gc) (hssa : (outs prog).Nodup)
-    (hal : ∀ d ∈ prog, d.op.gcAlias = true → ∀ a ∈ d.ins, a.const = false →
+    (hal : ∀ d ∈ prog, d.op.gcAliasOld = true → ∀ a ∈ d.ins, a.const = false →
       ∀ w, d.outId = some w → w ∈ al a.id) :
     ∀ (pre0 l : List Step), prog = pre0 ++ l → dbu l = true →
     ∀ pre post g, (gcBack al rl l).1 = pre ++ g :: post → g.op = .gc →
       ∃ a, g = gcStep a ∧ a.const = false ∧
         ∀ t ∈ post, t.op ≠ .gc → ∀ b ∈ t.ins, b.const = false →
           b.id ≠ a.id ∧
-          ¬ (∃ d ∈ prog, d.op.gcAlias = true ∧ d.outId = some b.id ∧
+          ¬ (∃ d ∈ prog, d.op.gcAliasOld = true ∧ d.outId = some b.id ∧
               ∃ a' ∈ d.ins, a'.const = false ∧ a'.id = a.id) := by
   intro pre0 l
   induction l generalizing pre0 with
@@ -399,9 +399,9 @@ theorem gcBack_covered (prog : List Step) (al : Nat → List Nat) (rl : Live)
 
 /-! ## From direct safety to `Safe` when there are no chains -/
 
-theorem mem_aliasesOf (prog : List Step) (v w : Nat) :
-    w ∈ aliasesOf prog v ↔ ∃ s ∈ prog, s.op.gcAlias = true ∧ s.reads v = true ∧ s.outId = some w := by
-  simp only [aliasesOf, List.mem_filterMap]
+theorem mem_aliasesOfOld (prog : List Step) (v w : Nat) :
+    w ∈ aliasesOfOld prog v ↔ ∃ s ∈ prog, s.op.gcAliasOld = true ∧ s.reads v = true ∧ s.outId = some w := by
+  simp only [aliasesOfOld, List.mem_filterMap]
   constructor
   · rintro ⟨s, hs, h⟩
     split at h
@@ -417,11 +417,12 @@ theorem reads_of_mem (s : Step) (a : Arg) (ha : a ∈ s.ins) (hc : a.const = fal
   simp only [Step.reads, List.any_eq_true]
   exact ⟨a, ha, by simp [hc]⟩
 
-theorem rewires_of_gcAlias (op : Op) (h : op.gcAlias = true) : op.rewires = true := by
-  cases op <;> simp_all [Op.gcAlias, Op.rewires]
+theorem gcAliasOld_of_rewires (op : Op) (h : op.rewires = true) (hc : op ≠ .concat) :
+    op.gcAliasOld = true := by
+  cases op <;> simp_all [Op.gcAliasOld, Op.rewires]
 
-theorem gcAlias_of_rewires (op : Op) (h : op.rewires = true) (hc : op ≠ .concat) : op.gcAlias = true := by
-  cases op <;> simp_all [Op.gcAlias, Op.rewires]
+theorem gcAlias_eq_rewires (op : Op) : op.gcAlias = op.rewires := by
+  cases op <;> rfl
 
 /-- Without chains, pointing into `v` means being `v` or a direct rewiring of
 `v`. -/
@@ -438,5 +439,116 @@ theorem pointsInto_nochain (prog : List Step) (hnc : NoChain prog) (w v : Nat)
     | self _ _ => rfl
     | step d a2 _ _ hd hdrw hdout _ _ _ =>
       exact absurd hdout (hnc s hs hrw a ha hac d hd hdrw)
+
+/-! ## The `aliasLive` closure covers everything that points into a value -/
+
+theorem mem_aliasesOf (prog : List Step) (v w : Nat) :
+    w ∈ aliasesOf prog v ↔ ∃ s ∈ prog, s.op.rewires = true ∧ s.reads v = true ∧ s.outId = some w := by
+  simp only [aliasesOf, List.mem_filterMap, gcAlias_eq_rewires]
+  constructor
+  · rintro ⟨s, hs, h⟩
+    split at h
+    · rename_i hc
+      simp only [Bool.and_eq_true] at hc
+      exact ⟨s, hs, hc.1, hc.2, h⟩
+    · cases h
+  · rintro ⟨s, hs, h1, h2, h3⟩
+    exact ⟨s, hs, by simp [h1, h2, h3]⟩
+
+/-- A non-empty chain of rewiring steps of `l` from `v` to `w`. -/
+inductive Chain (l : List Step) : Nat → Nat → Prop
+  | one (d : Step) (v w : Nat) :
+      d ∈ l → d.op.rewires = true → d.reads v = true → d.outId = some w → Chain l v w
+  | cons (d : Step) (v x w : Nat) :
+      d ∈ l → d.op.rewires = true → d.reads v = true → d.outId = some x → Chain l x w → Chain l v w
+
+theorem Chain.snoc {l : List Step} {v x w : Nat} (h : Chain l v x) (d : Step) (hd : d ∈ l)
+    (hrw : d.op.rewires = true) (hr : d.reads x = true) (ho : d.outId = some w) : Chain l v w := by
+  induction h with
+  | one d0 v x h1 h2 h3 h4 => exact Chain.cons d0 v x w h1 h2 h3 h4 (Chain.one d x w hd hrw hr ho)
+  | cons d0 v y x h1 h2 h3 h4 _ ih => exact Chain.cons d0 v y w h1 h2 h3 h4 (ih hr)
+
+theorem reads_iff (s : Step) (v : Nat) :
+    s.reads v = true ↔ ∃ a ∈ s.ins, a.const = false ∧ a.id = v := by
+  simp only [Step.reads, List.any_eq_true, Bool.and_eq_true, Bool.not_eq_true', beq_iff_eq]
+
+/-- Everything that points into `v` (and is not `v`) is reached from `v` by a
+chain of rewiring steps. -/
+theorem chain_of_pointsInto (prog : List Step) (w v : Nat) (h : PointsInto prog w v) (hne : w ≠ v) :
+    Chain prog v w := by
+  induction h with
+  | self v _ => exact absurd rfl hne
+  | step s a w v hs hrw hout ha hac hrec ih =>
+    have hr : s.reads a.id = true := reads_of_mem s a ha hac
+    by_cases hav : a.id = v
+    · rw [hav] at hr
+      exact Chain.one s v w hs hrw hr hout
+    · exact (ih hav).snoc s hs hrw hr hout
+
+/-- Definition before use: a chain that starts at a value defined in
+`s :: rest` does not use `s`. -/
+theorem chain_tail (s : Step) (rest : List Step) (hdbu : dbu (s :: rest) = true) (v w : Nat)
+    (h : Chain (s :: rest) v w) (hv : v ∈ outs (s :: rest)) : Chain rest v w := by
+  have hs : ∀ x, s.reads x = true → x ∉ outs (s :: rest) := by
+    intro x hx
+    obtain ⟨a, ha, hac, hax⟩ := (reads_iff s x).mp hx
+    simp only [dbu, Bool.and_eq_true, List.all_eq_true] at hdbu
+    have := hdbu.1 a ha
+    simp only [hac, Bool.false_or, Bool.not_eq_true', List.contains_eq_mem,
+      decide_eq_false_iff_not] at this
+    rw [← hax]; exact this
+  induction h with
+  | one d v w hd hrw hr ho =>
+    rcases List.mem_cons.mp hd with rfl | hd'
+    · exact absurd hv (hs v hr)
+    · exact Chain.one d v w hd' hrw hr ho
+  | cons d v x w hd hrw hr ho _ ih =>
+    rcases List.mem_cons.mp hd with rfl | hd'
+    · exact absurd hv (hs v hr)
+    · exact Chain.cons d v x w hd' hrw hr ho
+        (ih (mem_outs.mpr ⟨d, List.mem_cons_of_mem _ hd', ho⟩))
+
+theorem mem_closure_succ (dir : Nat → List Nat) (fuel v x w : Nat) (hx : x ∈ dir v)
+    (hw : w ∈ aliasClosure dir fuel x) : w ∈ aliasClosure dir (fuel + 1) v := by
+  simp only [aliasClosure, List.mem_append, List.mem_flatMap]
+  exact Or.inr ⟨x, hx, hw⟩
+
+theorem mem_closure_direct (dir : Nat → List Nat) (fuel v w : Nat) (hw : w ∈ dir v) :
+    w ∈ aliasClosure dir (fuel + 1) v := by
+  simp only [aliasClosure, List.mem_append]
+  exact Or.inl hw
+
+/-- A chain inside a suffix `l` of a program with definition before use is
+found by the closure with fuel `l.length`. -/
+theorem closure_of_chain (prog : List Step) :
+    ∀ (l : List Step), (∀ d ∈ l, d ∈ prog) → dbu l = true → ∀ v w, Chain l v w →
+      w ∈ aliasClosure (aliasesOf prog) l.length v := by
+  intro l
+  induction l with
+  | nil =>
+    intro _ _ v w h
+    cases h with
+    | one d _ _ hd => cases hd
+    | cons d _ _ _ hd => cases hd
+  | cons s rest ih =>
+    intro hsub hdbu v w h
+    have hdbu' : dbu rest = true := by
+      simp only [dbu, Bool.and_eq_true] at hdbu; exact hdbu.2
+    have hsub' : ∀ d ∈ rest, d ∈ prog := fun d hd => hsub d (List.mem_cons_of_mem _ hd)
+    cases h with
+    | one d _ _ hd hrw hr ho =>
+      exact mem_closure_direct _ _ _ _ ((mem_aliasesOf prog v w).mpr ⟨d, hsub d hd, hrw, hr, ho⟩)
+    | cons d _ x _ hd hrw hr ho htail =>
+      have hx : x ∈ aliasesOf prog v := (mem_aliasesOf prog v x).mpr ⟨d, hsub d hd, hrw, hr, ho⟩
+      have htail' : Chain rest x w :=
+        chain_tail s rest hdbu x w htail (mem_outs.mpr ⟨d, hd, ho⟩)
+      exact mem_closure_succ _ _ _ _ _ hx (ih hsub' hdbu' x w htail')
+
+/-- The executable closure of `Program.GC` satisfies the hypothesis of the
+safety theorem. -/
+theorem closure_covers (prog : List Step) (hdbu : dbu prog = true) (w v : Nat)
+    (h : PointsInto prog w v) (hne : w ≠ v) :
+    w ∈ aliasClosure (aliasesOf prog) prog.length v :=
+  closure_of_chain prog prog (fun _ h => h) hdbu v w (chain_of_pointsInto prog w v h hne)
 
 end Mpc.Gc
